@@ -31,9 +31,9 @@ Definition index_exact {A} (ix : list key) (items : list A) (keys : A -> list ke
 Ltac splits := repeat match goal with |- _ /\ _ => split end.
 
 Ltac sproj :=
-  cbn [scopes sessions records sspecs cspecs rspecs navs ix_as ix_ss ix_asp ix_cs ix_ac
+  cbn [scopes sessions records sspecs cspecs rspecs navs ix_as ix_ss ix_asp ix_cs ix_ac locs
        with_scopes with_sessions with_records with_sspecs with_cspecs with_rspecs with_navs
-       with_ix_scope with_ix_sspec with_ix_cspec] in *.
+       with_ix_scope with_ix_sspec with_ix_cspec with_locs] in *.
 
 (** * Generic list facts *)
 Lemma filter_id : forall {A} (p : A -> bool) l, (forall x, In x l -> p x = true) -> filter p l = l.
@@ -271,7 +271,7 @@ Qed.
 Definition sub (st st' : state) : Prop :=
   scopes st' = scopes st /\ sspecs st' = sspecs st /\ cspecs st' = cspecs st /\
   rspecs st' = rspecs st /\ navs st' = navs st /\ ix_as st' = ix_as st /\ ix_ss st' = ix_ss st /\
-  ix_asp st' = ix_asp st /\ ix_cs st' = ix_cs st /\ ix_ac st' = ix_ac st /\
+  ix_asp st' = ix_asp st /\ ix_cs st' = ix_cs st /\ ix_ac st' = ix_ac st /\ locs st' = locs st /\
   (exists p, sessions st' = filter p (sessions st)) /\
   (exists q, records st' = filter q (records st)).
 
@@ -282,8 +282,8 @@ Qed.
 
 Lemma sub_trans : forall a b c, sub a b -> sub b c -> sub a c.
 Proof.
-  intros a b c (A1&A2&A3&A4&A5&A6&A7&A8&A9&A10&(p1&Ap)&(q1&Aq))
-               (B1&B2&B3&B4&B5&B6&B7&B8&B9&B10&(p2&Bp)&(q2&Bq)).
+  intros a b c (A1&A2&A3&A4&A5&A6&A7&A8&A9&A10&A11&(p1&Ap)&(q1&Aq))
+               (B1&B2&B3&B4&B5&B6&B7&B8&B9&B10&B11&(p2&Bp)&(q2&Bq)).
   unfold sub; splits; try congruence.
   - exists (fun x => p1 x && p2 x). rewrite Bp, Ap. apply filter_filter.
   - exists (fun x => q1 x && q2 x). rewrite Bq, Aq. apply filter_filter.
@@ -291,13 +291,13 @@ Qed.
 
 Lemma sub_sessions : forall st st' s, sub st st' -> In s (sessions st') -> In s (sessions st).
 Proof.
-  intros st st' s (_&_&_&_&_&_&_&_&_&_&(p&Hp)&_) Hin. rewrite Hp in Hin.
+  intros st st' s (_&_&_&_&_&_&_&_&_&_&_&(p&Hp)&_) Hin. rewrite Hp in Hin.
   apply filter_In in Hin; tauto.
 Qed.
 
 Lemma sub_records : forall st st' r, sub st st' -> In r (records st') -> In r (records st).
 Proof.
-  intros st st' r (_&_&_&_&_&_&_&_&_&_&_&(q&Hq)) Hin. rewrite Hq in Hin.
+  intros st st' r (_&_&_&_&_&_&_&_&_&_&_&_&(q&Hq)) Hin. rewrite Hq in Hin.
   apply filter_In in Hin; tauto.
 Qed.
 
@@ -315,7 +315,7 @@ Qed.
 Lemma Inv_sub : forall st st', Inv st -> sub st st' -> Inv st'.
 Proof.
   intros st st' ((U1&U2&U3&U4&U5&U6)&(I1&I2&I3&I4&I5))
-         (E1&E2&E3&E4&E5&E6&E7&E8&E9&E10&(p&Ep)&(q&Eq)).
+         (E1&E2&E3&E4&E5&E6&E7&E8&E9&E10&E11&(p&Ep)&(q&Eq)).
   unfold Inv, uniq, idx_ok. rewrite E1, E2, E3, E4, E6, E7, E8, E9, E10, Ep, Eq.
   splits; auto using NoDup_map_filter.
 Qed.
@@ -417,6 +417,27 @@ Qed.
 Lemma Inv_remove_navs : forall st sc, Inv st -> Inv (remove_navs st sc).
 Proof. intros st sc HI. exact HI. Qed.
 
+Lemma Inv_with_locs : forall st v, Inv st -> Inv (with_locs st v).
+Proof. intros st v HI. exact HI. Qed.
+
+Lemma Inv_set_loc : forall st h a u st', set_loc st h a u = Some st' -> Inv st -> Inv st'.
+Proof.
+  intros st h a u st' H HI. unfold set_loc in H.
+  destruct (_ || _); [discriminate H|]. inversion H; subst st'. exact HI.
+Qed.
+
+Lemma Inv_remove_loc : forall st a st', remove_loc st a = Some st' -> Inv st -> Inv st'.
+Proof.
+  intros st a st' H HI. unfold remove_loc in H.
+  destruct (isSome _); [|discriminate H]. inversion H; subst st'. exact HI.
+Qed.
+
+Lemma Inv_modify_loc : forall st a u st', modify_loc st a u = Some st' -> Inv st -> Inv st'.
+Proof.
+  intros st a u st' H HI. unfold modify_loc in H.
+  destruct (_ || _); [discriminate H|]. inversion H; subst st'. exact HI.
+Qed.
+
 Lemma Inv_remove_session : forall st su ss, Inv st -> Inv (remove_session st su ss).
 Proof. intros st su ss HI. eapply Inv_sub; [exact HI | apply sub_remove_session]. Qed.
 
@@ -500,7 +521,7 @@ Proof.
     eauto using Inv_set_scope, Inv_remove_scope, Inv_set_session, Inv_remove_session,
       Inv_set_record, Inv_remove_record, Inv_set_sspec, Inv_remove_sspec, Inv_set_cspec,
       Inv_remove_cspec, Inv_set_rspec, Inv_remove_rspec, Inv_set_nav, Inv_remove_navs,
-      Inv_with_rspecs_filter.
+      Inv_with_rspecs_filter, Inv_set_loc, Inv_remove_loc, Inv_modify_loc.
 Qed.
 
 Lemma Inv_fold : forall ops st, Inv st -> Inv (fold_left (fun st o => fst (step st o)) ops st).
@@ -940,6 +961,24 @@ Proof.
   inversion H; subst st'. apply refs_same_core; reflexivity.
 Qed.
 
+Lemma refs_set_loc : forall st h a u st', set_loc st h a u = Some st' -> refs_ok st -> refs_ok st'.
+Proof.
+  intros st h a u st' H. unfold set_loc in H.
+  destruct (_ || _); [discriminate H|]. inversion H; subst st'. apply refs_same_core; reflexivity.
+Qed.
+
+Lemma refs_remove_loc : forall st a st', remove_loc st a = Some st' -> refs_ok st -> refs_ok st'.
+Proof.
+  intros st a st' H. unfold remove_loc in H.
+  destruct (isSome _); [|discriminate H]. inversion H; subst st'. apply refs_same_core; reflexivity.
+Qed.
+
+Lemma refs_modify_loc : forall st a u st', modify_loc st a u = Some st' -> refs_ok st -> refs_ok st'.
+Proof.
+  intros st a u st' H. unfold modify_loc in H.
+  destruct (_ || _); [discriminate H|]. inversion H; subst st'. apply refs_same_core; reflexivity.
+Qed.
+
 Lemma refs_step : forall st o, guarded o = true -> refs_ok st -> refs_ok (fst (step st o)).
 Proof.
   intros st o Hg HI.
@@ -948,7 +987,7 @@ Proof.
     eauto using refs_set_scope, refs_remove_scope, refs_set_session, refs_remove_session,
       refs_set_record, refs_remove_record, refs_set_sspec, refs_remove_sspec, refs_set_cspec,
       refs_remove_cspec, refs_set_rspec, refs_remove_rspec, refs_set_nav, refs_remove_navs,
-      refs_with_rspecs.
+      refs_with_rspecs, refs_set_loc, refs_remove_loc, refs_modify_loc.
 Qed.
 
 Lemma refs_init : refs_ok init.
